@@ -2871,7 +2871,7 @@ sexp sexp_read_float_tail (sexp ctx, sexp in, double whole, int negp) {
       res = sexp_read_complex_tail(ctx, in, res);
 #if SEXP_USE_MATH
     } else if (c=='@') {
-      return sexp_read_polar_tail(ctx, in, res);
+      res = sexp_read_polar_tail(ctx, in, res);
 #endif
     } else
 #endif
